@@ -64,6 +64,7 @@ pub struct KeyEnt {
 pub struct Table {
     pub ents: Vec<(i64, Vec<u8>, Option<u64>)>,
     by_id: HashMap<i64, usize>,
+    pub encs: HashMap<i64, String>,
     by_hash: HashMap<(usize, u64), Vec<usize>>,
 }
 
@@ -121,6 +122,11 @@ impl Tables {
                 let id = k["id"].as_i64().ok_or("key id")?;
                 let (bytes, int) = key_bytes_of(k, id)?;
                 self.keys.add(id, bytes, int)?;
+                if int.is_some() {
+                    let enc = k.get("enc").and_then(|e| e.as_str()).unwrap_or("u64le");
+                    let kt = match enc { "u64le" => "u64", "i64le" => "i64", "vu64" => "vu64", _ => "bytes" };
+                    self.keys.encs.insert(id, kt.to_string());
+                }
             }
         }
         if let Some(vs) = line.get("vals").and_then(|v| v.as_array()) {
